@@ -82,22 +82,27 @@ Section First.
     - exact Hmix.
   Qed.
 
-  (* "foo [amd64 i386": the bracket is never closed - after the tokens the input ends (possibly inside a name) *)
-  Theorem C04_reject_unterminated_bracket nt items w w0 tail : all_ws w -> all_ws w0 ->
-    Forall (wf_archent nt) (map fst items) -> seps1 items -> forallb archc tail = true ->
-    parse (name ++ qual_text q ++ clauses_text cl ++ w ++ ch 91 :: w0 ++ items_text nt items ++ tail) = Err.
+  (* "foo [amd64 i386", "foo [amd64, bar [i386]": the bracket is not closed - after the tokens (possibly inside a
+     name) comes the end of the input (x = []), a separator or a further '[' - whatever x holds behind that *)
+  Theorem C04_reject_unterminated_bracket nt items w w0 tail x : all_ws w -> all_ws w0 ->
+    Forall (wf_archent nt) (map fst items) -> seps1 items -> forallb archc tail = true -> bad_in_arch (peek x) = true ->
+    parse (name ++ qual_text q ++ clauses_text cl ++ w ++ ch 91 :: w0 ++ items_text nt items ++ tail ++ x) = Err.
   Proof.
-    intros Hw Hw0 Wf Sp Ht. apply lift; try assumption.
-    apply (archs_then nt items [] tail Err Wf Sp). cbn [app].
+    intros Hw Hw0 Wf Sp Ht B. apply lift; try assumption.
+    apply (archs_then nt items [] (tail ++ x) Err Wf Sp). cbn [app].
     exists 1%nat. intros [|f] Hf; [lia|]. cbn [archs_loop].
-    destruct tail as [|c r]; [reflexivity|].
-    (* a last name that runs into the end of the input *)
-    assert (Hc0 : archc c = true) by (cbn in Ht; now apply andb_true_iff in Ht as [? _]).
-    unfold archc in Hc0. apply negb_true_iff in Hc0. apply orb_false_iff in Hc0 as [Hc1 Cws]. apply orb_false_iff in Hc1 as [Hc1 C93].
-    apply orb_false_iff in Hc1 as [C0 C33].
+    destruct (tail ++ x) as [|c r] eqn:ET; [reflexivity|].
+    (* the first byte behind the tokens: of a name, or the byte that ends the clause with an error *)
+    assert (Hc0 : is_ws c = false /\ eqc c 93 = false /\ eqc c 33 = false).
+    { destruct tail as [|c1 r1].
+      - cbn [app] in ET. subst x. cbn [peek] in B. now apply bad_arch_facts.
+      - cbn [app] in ET. inversion ET; subst c1 r. cbn in Ht. apply andb_true_iff in Ht as [Hc0 _].
+        unfold archc in Hc0. apply negb_true_iff in Hc0. apply orb_false_iff in Hc0 as [Hc1 Cws]. apply orb_false_iff in Hc1 as [Hc1 C93].
+        apply orb_false_iff in Hc1 as [_ C33]. auto. }
+    destruct Hc0 as (Cws&C93&C33).
     assert (HO : headok (c :: r)) by (unfold headok; cbn; exact Cws).
-    rewrite (eat_ws_id _ HO). rewrite C0, C93. unfold parse_one_arch. rewrite (eat_ws_id _ HO). cbn [peek]. rewrite C33.
-    rewrite (reject_open_bracket (c :: r) [] Ht).
+    rewrite (eat_ws_id _ HO). destruct (eqc c 0); [reflexivity|]. rewrite C93. unfold parse_one_arch. rewrite (eat_ws_id _ HO). cbn [peek]. rewrite C33.
+    rewrite <- ET. rewrite (reject_open_bracket tail [] x Ht B).
     destruct (a_list _); [reflexivity|]. destruct (Bool.eqb _ false); reflexivity.
   Qed.
 End First.
@@ -105,17 +110,17 @@ Print Assumptions C04_reject_mixed_negation.
 Print Assumptions C04_reject_unterminated_bracket.
 
 (* "${name" with no closing brace up to the end of the input (first alternative of a field, after any blanks) *)
-Theorem C04_reject_unterminated_substvar w nm : all_ws w -> forallb subc nm = true ->
-  parse (w ++ ch 36 :: ch 123 :: nm) = Err.
+Theorem C04_reject_unterminated_substvar w nm x : all_ws w -> forallb subc nm = true -> bad_in_substvar (peek x) = true ->
+  parse (w ++ ch 36 :: ch 123 :: nm ++ x) = Err.
 Proof.
-  intros Hw Hn. unfold parse. rewrite (eat_ws_app w _ Hw).
-  remember (List.length (w ++ ch 36 :: ch 123 :: nm)) as L eqn:EL. clear EL.
+  intros Hw Hn B. unfold parse. rewrite (eat_ws_app w _ Hw).
+  remember (List.length (w ++ ch 36 :: ch 123 :: nm ++ x)) as L eqn:EL. clear EL.
   replace (4 * L + 8)%nat with (S (S (S (4 * L + 5))))%nat by lia.
-  assert (E0 : eat_ws (ch 36 :: ch 123 :: nm) = ch 36 :: ch 123 :: nm) by reflexivity.
+  assert (E0 : eat_ws (ch 36 :: ch 123 :: nm ++ x) = ch 36 :: ch 123 :: nm ++ x) by reflexivity.
   rewrite E0, D4.dependency_loop_S. cbn [peek]. change (eqc (ch 36) 0) with false. change (eqc (ch 36) 44) with false. cbv iota.
   rewrite E0, D4.relation_loop_S. cbn [peek]. change (eqc (ch 36) 0 || eqc (ch 36) 44) with false. change (eqc (ch 36) 124) with false. cbv iota.
   unfold parse_possibility. rewrite E0. cbn [peek]. change (eqc (ch 36) 36) with true. cbv iota.
   unfold parse_substvar. rewrite E0. cbn [adv tl].
-  now rewrite (reject_open_substvar nm [] Hn).
+  now rewrite (reject_open_substvar nm [] x Hn B).
 Qed.
 Print Assumptions C04_reject_unterminated_substvar.
